@@ -411,8 +411,6 @@ Proof.
   intros j Hj. rewrite !nth_upd_other by exact Hj. reflexivity.
 Qed.
 
-(* the local commits are not dropped: the old tip becomes a pending merge, or
-   is dominated by one of the tree's parents *)
 (* an unbound or lightweight checkout: only the tree moves, onto the branch tip *)
 Theorem update_tree_only s i c t :
   nth_error (cos s) i = Some c -> is_bound c = false -> tip (branch_of s c) = Some t ->
@@ -638,7 +636,7 @@ Proof.
   assert (T : forall r, tip_lt (S (length (graph s))) (mkB (Some (length (graph s))) r)).
   { intros r t Ht. cbn in Ht. injection Ht as <-. lia. }
   apply Forall_app. split.
-  - destruct (negb loc && is_bound c); repeat constructor. apply T.
+  - destruct (negb loc && is_bound c); [constructor; [apply T | constructor] | constructor].
   - constructor; [unfold wbranch; destruct (heavy c); apply T|].
     constructor; [|constructor]. cbn. intros p [<-|[]]. lia.
 Qed.
@@ -712,7 +710,7 @@ Proof.
     - destruct (update_revisions (graph s) (mbranch s) false sb None false) as [m'|e] eqn:U; [|discriminate].
       intros H; injection H as <-.
       pose proof (ur_tip_lt _ _ _ _ _ W M Hsrc U) as Hm'.
-      split; [apply good_write; [exact G | exact Hm']|]. split; [reflexivity|].
+      split; [exact (good_write s (WMaster m') G Hm')|]. split; [reflexivity|].
       unfold branch_of. destruct (heavy c); [exact Hl | exact Hm'].
     - intros H; injection H as <-. split; [exact G|]. split; [reflexivity|].
       unfold branch_of. destruct (heavy c); [exact Hl | exact M]. }
@@ -761,4 +759,210 @@ Qed.
 Theorem good_run ops : forall s, good s -> good (run s ops).
 Proof.
   induction ops as [|o ops IH]; intros s G; cbn; [exact G|]. apply IH. apply good_step. exact G.
+Qed.
+
+(* ---- reachable states: nobody is ahead of the master ----------------------------------- *)
+
+Definition behind_co (g : dag) (m : branch) (c : checkout) : Prop :=
+  heavy c = true -> bound c = true /\ leo g (tip (lbranch c)) (tip m).
+Definition behind (s : sys) : Prop := Forall (behind_co (graph s) (mbranch s)) (cos s).
+
+(* operations other than --local commits and unbind *)
+Definition nolocal (o : op) : bool :=
+  match o with Commit _ loc _ => negb loc | Unbind _ => false | _ => true end.
+
+Lemma behind_wmaster s b : wf_dag (graph s) = true -> behind s ->
+  leo (graph s) (tip (mbranch s)) (tip b) -> behind (apply_write s (WMaster b)).
+Proof.
+  intros W B L. unfold behind in *. cbn. eapply Forall_impl; [|exact B].
+  intros c Hc Hh. destruct (Hc Hh) as [Hb Hl]. split; [exact Hb|].
+  eapply leo_trans; eassumption.
+Qed.
+
+Lemma behind_wlocal s i b : behind s ->
+  leo (graph s) (tip b) (tip (mbranch s)) -> behind (apply_write s (WLocal i b)).
+Proof.
+  intros B L. unfold behind in *. cbn. apply Forall_upd_nth; [exact B|].
+  intros c Hc Hh. cbn in *. destruct (Hc Hh) as [Hb _]. split; [exact Hb | exact L].
+Qed.
+
+Lemma behind_wtree s i ps : behind s -> behind (apply_write s (WTree i ps)).
+Proof.
+  intros B. unfold behind in *. cbn. apply Forall_upd_nth; [exact B|].
+  intros c Hc Hh. cbn in *. exact (Hc Hh).
+Qed.
+
+Lemma behind_extend s ps : good s -> behind s -> (forall p, In p ps -> p < length (graph s)) ->
+  behind (mkS (graph s ++ [ps]) (mbranch s) (cos s)).
+Proof.
+  intros [W [C [M _]]] B H. unfold behind in *. cbn. eapply Forall_impl; [|exact B].
+  intros c Hc Hh. destruct (Hc Hh) as [Hb Hl]. split; [exact Hb|].
+  apply leo_extend; assumption.
+Qed.
+
+(* a non-local commit in a lightweight checkout (or the master's own tree) *)
+Lemma light_commit_plan s i c ws :
+  heavy c = false -> commit_plan s i c false = inr ws ->
+  ws = [WMaster (new_branch s (mbranch s)); WTree i [length (graph s)]]
+  /\ (tip (mbranch s) = None \/ hd_error (tparents c) = tip (mbranch s)).
+Proof.
+  intros Hh. unfold commit_plan, is_bound, branch_of, wbranch. rewrite Hh. cbn [negb andb].
+  destruct (opt_eqb (tip (mbranch s)) (hd_error (tparents c))) eqn:E2; cbn [negb andb].
+  - intros H; injection H as <-. split; [reflexivity|]. right. symmetry. apply opt_eqb_spec. exact E2.
+  - destruct (tip (mbranch s)) eqn:Et; cbn [is_some]; [discriminate|].
+    intros H; injection H as <-. split; [reflexivity | left; reflexivity].
+Qed.
+
+Lemma hd_error_In {A} (l : list A) x : hd_error l = Some x -> In x l.
+Proof. destruct l; cbn; [discriminate | intros H; injection H as ->; left; reflexivity]. Qed.
+
+Lemma behind_commit s i f : good s -> behind s -> behind (snd (commit s i false f)).
+Proof.
+  intros G B. unfold commit. destruct (nth_error (cos s) i) as [c|] eqn:Hc; [|exact B].
+  destruct (commit_plan s i c false) as [e|ws] eqn:P; [exact B|].
+  assert (Hps : forall p, In p (tparents c) -> p < length (graph s)).
+  { destruct G as [_ [_ [_ F]]]. apply (Forall_nth _ _ _ _ F Hc). }
+  pose proof (good_extend s (tparents c) G Hps) as G1.
+  pose proof (behind_extend s (tparents c) G B Hps) as B0.
+  set (s1 := mkS (graph s ++ [tparents c]) (mbranch s) (cos s)) in *.
+  set (nb := new_branch s (mbranch s)).
+  assert (W1 : wf_dag (graph s1) = true) by (destruct G1 as [X _]; exact X).
+  assert (Hnew : (tip (mbranch s) = None \/ hd_error (tparents c) = tip (mbranch s)) ->
+                 leo (graph s1) (tip (mbranch s1)) (tip nb)).
+  { intros D. subst s1 nb. cbn [graph mbranch new_branch tip]. apply leo_new; [exact W1|].
+    destruct D as [D|D]; [left; exact D|].
+    destruct (tip (mbranch s)) as [p|]; [|left; reflexivity].
+    right. exists p. split; [reflexivity | apply hd_error_In; exact D]. }
+  destruct (heavy c) eqn:Hh.
+  - assert (Bc : is_bound c = true).
+    { unfold is_bound. rewrite Hh. unfold behind in B. destruct (Forall_nth _ _ _ _ B Hc Hh) as [X _]. rewrite X. reflexivity. }
+    destruct (bound_commit_plan s i c ws Bc P) as [-> [_ D]].
+    fold nb.
+    pose proof (behind_wmaster s1 nb W1 B0 (Hnew D)) as B1.
+    assert (B2 : behind (apply_write (apply_write s1 (WMaster nb)) (WLocal i nb))).
+    { apply behind_wlocal; [exact B1|]. cbn [apply_write mbranch graph]. apply leo_refl. exact W1. }
+    pose proof (behind_wtree _ i [length (graph s)] B2) as B3.
+    destruct f as [[|[|[|k]]]|]; cbn [snd Nat.ltb Nat.leb length firstn apply_writes fold_left]; assumption.
+  - destruct (light_commit_plan s i c ws Hh P) as [-> D].
+    fold nb.
+    pose proof (behind_wmaster s1 nb W1 B0 (Hnew D)) as B1.
+    pose proof (behind_wtree _ i [length (graph s)] B1) as B2.
+    destruct f as [[|[|k]]|]; cbn [snd Nat.ltb Nat.leb length firstn apply_writes fold_left]; assumption.
+Qed.
+
+Lemma behind_update s i : good s -> behind s -> behind (snd (update s i)).
+Proof.
+  intros G B. pose proof G as [W _]. unfold update.
+  destruct (nth_error (cos s) i) as [c|] eqn:Hc; [|exact B].
+  destruct (is_bound c) eqn:Bc.
+  - assert (Hh : heavy c = true) by (unfold is_bound in Bc; apply andb_true_iff in Bc; tauto).
+    rewrite ur_overwrite.
+    assert (B1 : forall l', match tip (mbranch s) with None => Ok (lbranch c) | Some t => Ok (mkB (Some t) (revno (mbranch s))) end = Ok l' ->
+                 behind (apply_write s (WLocal i l'))).
+    { intros l' H. apply behind_wlocal; [exact B|].
+      destruct (tip (mbranch s)) as [t|] eqn:Et; injection H as <-.
+      - cbn [tip]. apply leo_refl. exact W.
+      - rewrite <- Et. destruct (Forall_nth _ _ _ _ B Hc Hh) as [_ X]. exact X. }
+    destruct (match tip (mbranch s) with None => _ | Some t => _ end) as [l'|e]; [|exact B].
+    specialize (B1 l' eq_refl).
+    destruct (update_tree_parents _ _ _ _); cbn [snd]; [apply behind_wtree; exact B1 | exact B1].
+  - destruct (update_tree_parents _ _ _ _); cbn [snd]; [apply behind_wtree; exact B | exact B].
+Qed.
+
+Lemma behind_pull s i sr : good s -> behind s -> behind (snd (pull s i sr)).
+Proof.
+  intros G B. pose proof G as [W [C [M F]]]. unfold pull.
+  destruct (nth_error (cos s) i) as [c|] eqn:Hc; [|exact B].
+  set (source := match sr with SMaster => _ | SCo j => _ end).
+  (* whatever the source is, its tip is in the master's ancestry; a source that "is the master" is the master *)
+  assert (Hsrc : forall sb sim, source = Some (sb, sim) ->
+                   leo (graph s) (tip sb) (tip (mbranch s)) /\ (sim = true -> sb = mbranch s)).
+  { subst source. destruct sr as [|j]; intros sb sim H.
+    - injection H as <- _. split; [apply leo_refl; exact W | reflexivity].
+    - destruct (nth_error (cos s) j) as [cj|] eqn:Hj; [|discriminate]. injection H as <- <-.
+      unfold branch_of. destruct (heavy cj) eqn:Hhj.
+      + split; [|discriminate]. destruct (Forall_nth _ _ _ _ B Hj Hhj) as [_ X]. exact X.
+      + split; [apply leo_refl; exact W | reflexivity]. }
+  destruct source as [[sb sim]|]; [|exact B].
+  destruct (Hsrc sb sim eq_refl) as [Ls Hsim].
+  destruct (heavy c) eqn:Hh.
+  - (* heavyweight target: by the invariant it is bound *)
+    destruct (Forall_nth _ _ _ _ B Hc Hh) as [Hb Ll].
+    unfold is_bound, wbranch, branch_of. rewrite Hh, Hb. cbn [andb].
+    destruct sim; cbn [negb].
+    + (* from the master: only the local branch moves, to the master's tip or not at all *)
+      rewrite (Hsim eq_refl).
+      destruct (update_revisions (graph s) (lbranch c) false (mbranch s) None false) as [l'|e] eqn:U; [|exact B].
+      assert (B1 : behind (apply_write s (WLocal i l'))).
+      { apply behind_wlocal; [exact B|].
+        destruct (ur_ok _ _ _ _ W U) as [[-> _]|[-> _]]; [exact Ll | apply leo_refl; exact W]. }
+      destruct (branch_eqb l' (lbranch c)); cbn [snd]; [exact B1 | apply behind_wtree; exact B1].
+    + (* from another checkout: the master first *)
+      destruct (update_revisions (graph s) (mbranch s) false sb None false) as [m'|e] eqn:Um; [|exact B].
+      assert (Lm : leo (graph s) (tip (mbranch s)) (tip m') /\ leo (graph s) (tip sb) (tip m')).
+      { destruct (ur_ok _ _ _ _ W Um) as [[-> X]|[-> [_ X]]].
+        - split; [apply leo_refl; exact W | exact X].
+        - cbn [tip]. split; [exact X | apply leo_refl; exact W]. }
+      destruct Lm as [Lm Lsm].
+      pose proof (behind_wmaster s m' W B Lm) as B1.
+      cbn [apply_write graph].
+      destruct (update_revisions (graph s) (lbranch c) false sb None false) as [l'|e] eqn:U; [|exact B1].
+      assert (B2 : behind (apply_write (apply_write s (WMaster m')) (WLocal i l'))).
+      { apply behind_wlocal; [exact B1|]. cbn [apply_write graph mbranch].
+        destruct (ur_ok _ _ _ _ W U) as [[-> _]|[-> _]].
+        - eapply leo_trans; [exact W | exact Ll | exact Lm].
+        - exact Lsm. }
+      destruct (branch_eqb l' (lbranch c)); cbn [snd]; [exact B2 | apply behind_wtree; exact B2].
+  - (* lightweight target: the master itself is pulled into *)
+    unfold is_bound, wbranch, branch_of. rewrite Hh. cbn [andb].
+    destruct (update_revisions (graph s) (mbranch s) false sb None false) as [l'|e] eqn:U; [|exact B].
+    assert (B1 : behind (apply_write s (WMaster l'))).
+    { apply behind_wmaster; [exact W | exact B|].
+      destruct (ur_ok _ _ _ _ W U) as [[-> _]|[-> [_ X]]]; [apply leo_refl; exact W | exact X]. }
+    destruct (branch_eqb l' (mbranch s)); cbn [snd]; [exact B1 | apply behind_wtree; exact B1].
+Qed.
+
+Lemma behind_bind s i : behind s -> behind (snd (set_bound s i true)).
+Proof.
+  intros B. unfold set_bound. destruct (nth_error (cos s) i) as [c|]; [|exact B].
+  destruct (heavy c); [|exact B]. unfold behind in *. cbn. apply Forall_upd_nth; [exact B|].
+  intros x Hx Hh. cbn in *. destruct (Hx Hh) as [_ L]. split; [reflexivity | exact L].
+Qed.
+
+Lemma behind_step s o : good s -> behind s -> nolocal o = true -> behind (snd (step s o)).
+Proof.
+  intros G B N. destruct o as [i loc f|i|i sr|i|i]; cbn [step nolocal] in *.
+  - destruct loc; [discriminate|]. apply behind_commit; assumption.
+  - apply behind_update; assumption.
+  - apply behind_pull; assumption.
+  - apply behind_bind; assumption.
+  - discriminate.
+Qed.
+
+Lemma behind_init kinds root : behind (init kinds root).
+Proof.
+  unfold behind, init. cbn [graph mbranch cos]. apply Forall_forall. intros c Hc.
+  apply in_map_iff in Hc as [h [<- _]]. intros Hh. cbn in *. split; [exact Hh|].
+  apply leo_refl. destruct root; reflexivity.
+Qed.
+
+(* the invariant, for every sequence of operations without --local commits and unbind
+   (faults included): no heavyweight checkout is ever ahead of, or diverged from, the master *)
+Theorem never_ahead ops : forall s, good s -> behind s -> forallb nolocal ops = true ->
+  good (run s ops) /\ behind (run s ops).
+Proof.
+  induction ops as [|o ops IH]; intros s G B N; cbn; [split; assumption|].
+  cbn in N. apply andb_true_iff in N as [N1 N2].
+  apply IH; [apply good_step; exact G | apply behind_step; assumption | exact N2].
+Qed.
+
+Theorem reachable_never_ahead kinds root ops c :
+  forallb nolocal ops = true ->
+  let s := run (init kinds root) ops in
+  In c (cos s) -> heavy c = true ->
+  is_anc_opt (graph s) (tip (lbranch c)) (tip (mbranch s)) = true.
+Proof.
+  intros N s Hc Hh.
+  destruct (never_ahead ops (init kinds root) (good_init kinds root) (behind_init kinds root) N) as [_ B].
+  unfold behind in B. rewrite Forall_forall in B. destruct (B c Hc Hh) as [_ L]. exact L.
 Qed.
